@@ -123,6 +123,29 @@ struct PropC19
     return 7.5 + 0.25 * (double)(k % 24);   // 7.5 .. 13.25 : below, inside and above 10 +- 1
   }
 
+  // a second object of the same class used by one more thread only (role 3): evaluate / store, then read back
+  static Task neighbourTask(Rng & r, int sc, int pairs, uint32_t repeat)
+  {
+    Task t; t.role = 3; t.repeat = repeat;
+    int64_t stamp = 1000000000LL;
+    for (int i = 0; i < pairs; ++i) {
+      switch (sc) {
+        case S_SHARED_VAR: t.ops.push_back(mk(O_STORE, 0, 0, ((uint64_t)7 << 40) | (uint64_t)(i + 1))); t.ops.push_back(mk(O_LOAD)); break;
+        case S_SHARED_OPT: t.ops.push_back(mk(O_STORE, 0, 0, ((uint64_t)7 << 40) | (uint64_t)(i + 1))); t.ops.push_back(mk(O_CONSUME)); break;
+        case S_CHECKUP_EQ: case S_CHECKUP_GT: case S_CHECKUP_LT:
+          t.ops.push_back(mk(O_EVALUATE, checkupValue(sc, r.below(24)) + 0.125)); t.ops.push_back(mk(O_GET_REPORT)); break;
+        case S_RELIABILITY: t.ops.push_back(mk(O_EVALUATE, checkupValue(sc, r.below(16)) + 0.03125)); t.ops.push_back(mk(O_GET_REPORT)); break;
+        case S_CHECKUP_RATE_EQ: case S_CHECKUP_RATE_GT:
+          stamp += (int64_t)r.pick({125000000LL, 300000000LL, 450000000LL}); t.ops.push_back(mk(O_CR_EVALUATE, 0, stamp)); t.ops.push_back(mk(O_CR_GET_REPORT)); break;
+        default: break;
+      }
+    }
+    if (sc == S_SHARED_VAR || sc == S_SHARED_OPT) {t.seqStep = (uint64_t)pairs;}
+    if (sc >= S_CHECKUP_RATE_EQ) {t.tStep = stamp - 1000000000LL + 200000000LL;}
+    return t;
+  }
+  static bool neighbourScenario(int sc) {return sc == S_SHARED_VAR || sc == S_SHARED_OPT || (sc >= S_CHECKUP_EQ && sc <= S_RELIABILITY) || sc >= S_CHECKUP_RATE_EQ;}
+
   Plan shortPlan(uint64_t runseed, int forceScenario = -1) const
   {
     Rng r(runseed);
@@ -193,6 +216,7 @@ struct PropC19
         if (!t2.ops.empty()) {p.tasks.push_back(t2);}
       }
     }
+    if (forceScenario < 0 && neighbourScenario(sc) && !(sc == S_SHARED_VAR && p.b != 0) && r.chance(0.25)) {p.tasks.push_back(neighbourTask(r, sc, (int)r.range(1, 3), 1));}
     drawSched(r, p.sched, false);
     return p;
   }
@@ -255,6 +279,7 @@ struct PropC19
         p.tasks.push_back(t);
       }
     }
+    if (neighbourScenario(sc) && !(sc == S_SHARED_VAR && p.b != 0) && r.chance(0.4)) {p.tasks.push_back(neighbourTask(r, sc, 4, 100000 / 8 / 4));}
     drawSched(r, p.sched, true);
     return p;
   }
@@ -270,6 +295,7 @@ struct PropC19
   // ---------------------------------------------------------------- execution + oracles over the history
   Outcome execute(const Plan & p, Ctx & c) const
   {
+    sim::junkHeap((int)(p.sched.seed % 5));   // fresh allocations are filled with a byte chosen by the plan
     ExecResult res = runScenario(p, false);
     return judge(p, res, c);
   }
@@ -322,6 +348,7 @@ struct PropC19
       std::set<uint64_t> stored, seen;
       if (p.a != 0) {stored.insert(kInitialOptionalSeq); SIM_PROBE("optional_born_with_a_value");}
       for (auto & t : p.tasks) {
+        if (t.role == 3) {continue;}   // the neighbour stores into its own object
         for (uint32_t rep = 0; rep < t.repeat; ++rep) {for (auto & o : t.ops) {if (o.kind == O_STORE) {stored.insert(o.seq + rep * t.seqStep);}}}
       }
       auto consumedOf = [&](size_t k) {
@@ -344,7 +371,7 @@ struct PropC19
     if (p.longRun) {
       // final state after quiescence: with a single mutating thread it is that thread's ops applied in order
       int mutators = 0; const Task * w = nullptr;
-      for (auto & t : p.tasks) {if (t.role != 1) {++mutators; w = &t;}}
+      for (auto & t : p.tasks) {if (t.role != 1 && t.role != 3) {++mutators; w = &t;}}
       if (mutators == 1 && p.scenario != S_SHARED_OPT && res.finalTask >= 0) {
         SeqModel m; m.init(p);
         for (uint32_t rep = 0; rep < w->repeat; ++rep) {
@@ -363,6 +390,7 @@ struct PropC19
       SeqModel m; m.init(p);
       std::vector<model::ReportModel> producible; producible.push_back(m.chk.rep);
       for (auto & t : p.tasks) {
+        if (t.role == 3) {continue;}
         for (auto & o : t.ops) {
           model::CheckupModel cm = m.chk;
           if (o.kind == O_EVALUATE) {cm.evaluate(o.v); producible.push_back(cm.rep);}
@@ -412,7 +440,7 @@ struct PropC19
     j.set("scenario", scenarioName(p.scenario)).set("scenario_id", p.scenario).set("W", p.W).set("a", p.a).set("b", p.b).set("long_run", p.longRun);
     Json ts = Json::array();
     for (auto & t : p.tasks) {
-      Json o = Json::object(); o.set("role", t.role == 0 ? "writer" : t.role == 1 ? "reader" : "watchdog").set("role_id", t.role);
+      Json o = Json::object(); o.set("role", t.role == 0 ? "writer" : t.role == 1 ? "reader" : t.role == 2 ? "watchdog" : "neighbour (own second object)").set("role_id", t.role);
       if (t.repeat != 1) {o.set("repeat", (uint64_t)t.repeat).set("v_step", t.vStep).set("t_step", (long long)t.tStep).set("seq_step", (uint64_t)t.seqStep);}
       Json ops = Json::array();
       for (auto & op : t.ops) {
@@ -513,6 +541,7 @@ struct PropC19
     pid_t pid = fork();
     if (pid == 0) {
       close(fd[0]); gSlot = privateSlot();
+      sim::junkHeap((int)(p.sched.seed % 5));
       ExecResult res = runScenario(p, true);
       std::string s;
       for (int t : res.trace) {s += std::to_string(t) + " ";}
@@ -562,7 +591,8 @@ struct PropC19
       "SharedOptionalVariable<Blob> 1..4 producers + 1..4 consumers; OnlineAverage/OnlineVariance updater (with resets) + readers of "
       "getAverage/isAvailable/getVariance; CheckupEqualTo/GreaterThan/LowerThan<double> and CheckupReliability evaluator + optional "
       "watchdog (timeout) + getReport readers; RateMonitoring updater + heartbeat + getRate readers; CheckupRate<EqualTo|GreaterThan> "
-      "evaluate + heartBeatCallback + getReport. Threads are fibers; a seeded scheduler (random walk / PCT priorities with 1..3 change "
+      "evaluate + heartBeatCallback + getReport. A quarter of the shared-variable and check-up runs add a neighbour thread that is the only user of "
+      "a second object of the same class and must always read back what it last did. Threads are fibers; a seeded scheduler (random walk / PCT priorities with 1..3 change "
       "points / random time slices) decides at every lock, unlock, atomic, API-call boundary and at plain accesses sampled with probability "
       "{0,1/64,1/8,1/2}. Short runs (<= 32 ops; <= 48 in the thorough tier) record the full history; long runs (>= 1e5 ops) use the race detector and O(1) monitors. "
       "distinct = distinct hash of the sequence (thread, synchronisation op) over the run, i.e. distinct interleavings at synchronisation "
